@@ -19,8 +19,9 @@ class Listing(VC):
     property_id = "C20"
 
     def __init__(self, name, crate, fname, ns, val_ty, key="str", prefix=None, reverse=False, args=None, items=None, key_of=None, check=None,
-                 extra_state=None, eligible=None, extra_crates=(), n=N, cursor_validated=False, q=None):
-        self.name = f"C20.{name}"
+                 extra_state=None, eligible=None, extra_crates=(), n=N, cursor_validated=False, q=None, large=False):
+        self.name = f"C20.{name}" + ("[large]" if large else "")
+        self.large = large
         self.crate, self.fname, self.ns, self.val_ty, self.key, self.prefix, self.reverse = crate, fname, ns, val_ty, key, prefix, reverse
         self.args, self.items, self.key_of, self.check_item, self.extra_state, self.eligible = args, items, key_of, check, extra_state, eligible
         self.extra_crates, self.n, self.cursor_validated = extra_crates, n, cursor_validated
@@ -28,10 +29,19 @@ class Listing(VC):
 
     def run(self, I, ctx, ob):
         crate = self.crate
-        n = self.n
+        n = self.n if not self.large else MAX_LIMIT + 3
         env = mk_env(I, ctx)
         # ---- universe of keys (ordered) and the listed map with decided presence
-        if self.key == "str":
+        # large variant: more entries than the maximum page, concrete ordered keys, every key present: what varies is the limit,
+        # the cursor (absent / first key / a key in the middle) and, for filtering listings, where the eligible entries sit
+        if self.large and self.key == "str" and self.cursor_validated:
+            from mirsym import replay as _rp
+            K = sorted(_rp.addr_pool(n, prefix="listed"))          # listings that validate the cursor need real (bech32) addresses
+        elif self.large and self.key == "str":
+            K = [f"k{i:02d}" for i in range(n)]
+        elif self.large:
+            K = list(range(1, n + 1))
+        elif self.key == "str":
             K = universe(ctx, n, "k", ordered=True)
         else:
             K = [ctx.fresh_int(f"id{i}", 1, U64) for i in range(n)]
@@ -50,7 +60,7 @@ class Listing(VC):
         st = MapStore(self.ns, [], None, self.val_ty)
         present = []
         for i, k in enumerate(K):
-            p = ctx.choose([True, True], f"key{i} present?") == 0
+            p = True if self.large else ctx.choose([True, True], f"key{i} present?") == 0
             present.append(p)
             v = symval.fresh(I, ctx, self.val_ty, f"{self.ns}[{i}]", None, crate)
             st.slots.append([((pfx, k) if pfx is not None else (k,)), p, v])
@@ -66,13 +76,19 @@ class Listing(VC):
         Leff = zite(L < MAX_LIMIT, L, MAX_LIMIT) if not isinstance(L, int) else min(L, MAX_LIMIT)
         has_cursor = ctx.choose([True, True], "cursor?") == 0
         cursor = None
-        if has_cursor:
+        if has_cursor and self.large:
+            ci = [0, n // 2][ctx.choose([True, True], "cursor at first / middle key")]
+            if self.reverse: ci = n - 1 - ci
+            cursor = K[ci]
+        elif has_cursor:
             cursor = SymStr(ctx.fresh_id(), "cursor") if self.key == "str" else ctx.fresh_int("cursor", 0, U64)
         cur_opt = Some(cursor) if has_cursor else NONE
         # position of the cursor relative to the keys (decided here so that the expected page is concrete)
         beyond = []
         for k in K:
             if not has_cursor: beyond.append(True); continue
+            if self.large:
+                beyond.append((cursor < k) if not self.reverse else (k < cursor)); continue
             if self.key == "str":
                 if ctx.str_eq(cursor, k): beyond.append(False)
                 else: beyond.append(ctx.str_lt(cursor, k) if not self.reverse else ctx.str_lt(k, cursor))
@@ -82,7 +98,15 @@ class Listing(VC):
             from mirsym.models.cosmwasm import valid_addr_pred
             ctx.assume(valid_addr_pred(ctx, ctx.atom_of(cursor)))
         elig = [True] * n
-        if self.eligible: elig = [self.eligible(I, ctx, self, st.slots[i][2], env) for i in range(n)]
+        if self.eligible and self.large:
+            # a run of ineligible (expired) entries right after the listing's start, of a length around the page limits
+            run_len = [0, 1, DEFAULT_LIMIT, MAX_LIMIT, MAX_LIMIT + 1][ctx.choose([True] * 5, "length of the ineligible run")]
+            start = 0 if not has_cursor else (K.index(cursor) + 1)
+            for i in range(n):
+                dead = start <= i < start + run_len
+                elig[i] = not dead
+                self.make_eligible(I, ctx, st, i, env, not dead)
+        elif self.eligible: elig = [self.eligible(I, ctx, self, st.slots[i][2], env) for i in range(n)]
         expect = [i for i in range(n) if present[i] and beyond[i] and elig[i]]
         if self.reverse: expect.reverse()
         pre = snapshot_storage(ctx.storage)
@@ -110,12 +134,20 @@ class Listing(VC):
             ok = zand(ok, same)
             if self.check_item is not None: ok = zand(ok, self.check_item(I, ctx, it, st.slots[i][2], env))
         ob.require("C20.page_is_the_next_items_in_key_order_with_their_stored_values", ok)
-        ob.witness("full_page", len(page) == n)
+        ob.witness("full_page", len(page) == n or (self.large and len(page) == MAX_LIMIT))
         ob.witness("cut_by_limit", zand(Leff < R) if R > 0 else False)
         ob.witness("after_cursor", has_cursor and len(page) > 0)
         ob.witness("default_limit", lim.variant == "None")
         ob.twin("twin.page_always_empty", len(page) == 0)
 
+
+    def make_eligible(self, I, ctx, st, i, env, alive):
+        """large variant of a filtering listing: give entry i an expiry that has / has not passed at the query's block"""
+        v = st.slots[i][2]
+        h = ctx.fresh_int(f"{self.ns}[{i}].expires.height", 0, U64)
+        blk = env.get("block").get("height")
+        ctx.assume(h > blk if alive else h <= blk)
+        st.slots[i][2] = v.with_("expires", EnumV("Expiration", "AtHeight", [h]))
 
     def replay(self, I, v):
         """native query with the same state, cursor and limit: compare the page's key sequence"""
@@ -242,12 +274,21 @@ class FlexVoters(VC):
 
 
 def vcs(tier):
-    return listings() + [FlexVoters()]
+    out = listings() + [FlexVoters()]
+    # states larger than the maximum page (33 entries), ~15 s per listing
+    import copy
+    for L in listings():
+        if "proposals" in L.name: continue           # 33 symbolic proposals do not finish in the time budget (stated in OUTSIDE)
+        if True:
+            big = copy.copy(L); big.large = True; big.name = L.name + "[large]"
+            out.append(big)
+    return out
 
 
-BOUNDS = {"keys per listing": "3 ordered symbolic keys (2 for proposals / subkey allowances) with every presence pattern, plus an entry under a foreign prefix for prefixed listings",
+BOUNDS = {"large states": "33 concrete ordered keys, all present (more than the maximum page of 30): limit absent or any u32, cursor absent / first / middle key, for the filtering listing an expired run of length 0, 1, 10, 30 or 31 right after the start",
+          "keys per listing": "3 ordered symbolic keys (2 for proposals / subkey allowances) with every presence pattern, plus an entry under a foreign prefix for prefixed listings",
           "limit": "absent or any u32", "cursor": "absent, a listed key, or any other key (before, between, after)"}
-OUTSIDE = ("listings with more items than the universe, in particular more than 30: covered by the limit formula L = min(limit or 10, 30) proved for every u32 "
+OUTSIDE = ("large states for the two proposal listings (33 symbolic proposals exceed the time budget); listings with more items than the universes, in particular more than 33: covered by the limit formula L = min(limit or 10, 30) proved for every u32 "
            "together with the trusted semantics of Iterator::take and of ordered range iteration; multi-page completeness is the paper argument in the VC's docstring")
 ASSUMPTIONS = ["cw-storage-plus range/prefix iteration returns keys in ascending byte order (hand model); string order is an abstract total order consistent with equality",
                "for listings that validate the cursor (cw4, ics20) the cursor is a valid address"]
